@@ -305,7 +305,16 @@ func c20Scenario(r *vf.Run, t *testing.T, id string, rng *rand.Rand, g genOpts) 
 		reqs = append(reqs, q)
 	}
 	bad := reqs[nBefore]
-	bad.SplitSeed, bad.TrailerSplits = nil, nil
+	if rng.Intn(3) != 0 {
+		bad.SplitSeed, bad.TrailerSplits = nil, nil
+	} else if len(bad.SplitSeed) == 0 {
+		// the offending block continued in CONTINUATION frames, cut anywhere: what makes a list malformed is a property of
+		// the list, not of the frames it came in
+		bad.SplitSeed = []int{rng.Intn(1 << 20)}
+		if rng.Intn(2) == 0 {
+			bad.SplitSeed = append(bad.SplitSeed, rng.Intn(1<<20))
+		}
+	}
 	var rules []string
 	wellFormed := rng.Intn(5) == 0
 	if !wellFormed && rng.Intn(6) == 0 && c20PseudoOnlyThenTrailers(rng, bad) {
